@@ -1,5 +1,6 @@
 import MoneroModel.Proofs.Group
 import MoneroModel.Proofs.GroupInstance
+import MoneroModel.Proofs.EdwardsLawful
 /-! C10 — "Key derivation is Monero's cofactor-cleared Diffie-Hellman for every curve point".
 About the model `Monero.derive` / `Monero.oneTimeKey` (Model/Crypto.lean: `KeyGenerator::{from_key, from_random, one_time_key,
 get_rvn_scalar}` at HEAD of /repo, i.e. after the fix commit) and the by-the-book sender `Spec.Sender`. Every theorem holds
@@ -87,4 +88,39 @@ theorem C10_scalar8_counterexample :
   refine ⟨zmodOps_lawful, ((Ed.l : ℕ) : ZMod zN), Ed.l - 1, ?_, zmod_torsion_point.1, zmod_torsion_point.2, ?_⟩
   · show Ed.l - 1 < Ed.l; unfold Ed.l; omega
   · rw [zmodOps_lawful.derive_eq]; exact zmod_counter
+
+/-! ### Ed25519 itself: `Lawful` is a theorem, not an assumption
+
+`Proofs/EdwardsGroup.lean` proves that the affine twisted Edwards curve −x² + y² = 1 + d·x²·y² over GF(2^255 − 19) with the
+complete addition law is an abelian group (d is a non-square, −1 a square; associativity by explicit polynomial
+certificates); `Proofs/EdwardsRef*.lean` that the executable reference arithmetic `Ref/Ed25519.lean` (extended coordinates,
+double-and-add, RFC 8032 compression) computes in that group; `Proofs/EdwardsLawful.lean` that the resulting primitives
+record `edOps` (points = curve points, `l·G = 0`, injective encoding accepted by `dec`) is `Lawful`, and that the instance
+the compiled driver runs (`Drv.refOps`) refines it operation by operation. The theorems below are the theorems of this
+file with that instance plugged in: no hypothesis about the group is left. (That curve25519-dalek computes the same
+functions as `Ref/Ed25519.lean` remains a differential tie — dalek is a dependency.) -/
+section Ed25519
+open Monero.Edw
+
+/-- the primitives of Ed25519 are lawful, and the executable reference instance refines them -/
+theorem C10_ed25519_lawful : Lawful edOps ∧ RefinesEd Drv.refOps := ⟨edOps_lawful, refOps_refines_edOps⟩
+/-- `C10_derivation` for Ed25519: for every scalar and EVERY curve point (the group contains the 8-torsion:
+`Monero.Edw.T4_order`), the derivation is 8·(a·B) -/
+theorem C10_derivation_ed25519 (a : ℕ) (B : EdPoint) :
+    derive edOps a B = 8 • (a • B) ∧ derive edOps a B = Spec.Sender.derivation (specPrims edOps) a B :=
+  C10_derivation edOps_lawful a B
+theorem C10_derivation_torsion_ed25519 (a : ℕ) (B' T : EdPoint) (hT : 8 • T = 0) :
+    derive edOps a (B' + T) = derive edOps a B' ∧ derive edOps a (B' + T) = (8 * a) • B' :=
+  C10_derivation_torsion edOps_lawful a B' T hT
+theorem C10_sender_receiver_ed25519 (r v : ℕ) :
+    derive edOps r (edOps.smul v edOps.base) = derive edOps v (edOps.smul r edOps.base) ∧
+    ∀ B : EdPoint, derive edOps r (edOps.smul v B) = derive edOps v (edOps.smul r B) :=
+  C10_sender_receiver edOps_lawful r v
+theorem C10_onetime_recognised_ed25519 : type_of% (@C10_onetime_recognised EdPoint _ edOps edOps_lawful) :=
+  C10_onetime_recognised edOps_lawful
+theorem C10_view_tag_recognised_ed25519 : type_of% (@C10_view_tag_recognised EdPoint _ edOps edOps_lawful) :=
+  C10_view_tag_recognised edOps_lawful
+/-- non-vacuity: the instance has points outside the prime-order subgroup -/
+example : 4 • T4 = 0 ∧ 2 • T4 ≠ 0 ∧ Ed.l • T4 ≠ 0 := ⟨T4_order.1, T4_order.2, T4_not_l_torsion⟩
+end Ed25519
 end C10
